@@ -4,6 +4,7 @@ import (
 	"bytes"
 	"errors"
 	"fmt"
+	"net"
 	"runtime"
 	"sync"
 	"sync/atomic"
@@ -1197,6 +1198,182 @@ func targetedClosedClientsLeaveNothing(c *core.Ctx, variant int) {
 			"clients_per_round": n, "live_objects_after_each_round": fmt.Sprint(counts), "variant": variant})
 	}
 	c.Count("targeted.closed_clients_counted_in_heap_objects", 4*n)
+}
+
+// fixedClock is a client Clock that does not follow the wall clock (a simulation's clock, a coarse cached clock).
+type fixedClock struct{ t time.Time }
+
+func (f fixedClock) Now() time.Time { return f.t }
+
+// framedUDP is the wrapper NewClient's documentation asks for when a socket is shared or framed: it embeds the socket and
+// overrides Read and Write (4 bytes of framing in front of every datagram). Everything else - ReadFrom, RemoteAddr, the
+// deadline setters - is promoted from the socket and talks to the RAW socket.
+type framedUDP struct{ *net.UDPConn }
+
+func (f framedUDP) Write(b []byte) (int, error) {
+	n, err := f.UDPConn.Write(append([]byte{0xF0, 0x0D, byte(len(b) >> 8), byte(len(b))}, b...))
+	if n >= 4 {
+		n -= 4
+	}
+
+	return n, err
+}
+
+func (f framedUDP) Read(p []byte) (int, error) {
+	buf := make([]byte, len(p)+4)
+	n, err := f.UDPConn.Read(buf)
+	if err != nil || n < 4 {
+		return 0, err
+	}
+
+	return copy(p, buf[4:n]), nil
+}
+
+// targetedRealConnections: the client on real connections of the standard library (which have deadlines, addresses and
+// the packet-connection methods), with a Clock that does not follow the wall clock. "Received" is what the Connection's
+// Read returns: the response is delivered to the transaction, and what the handler sees is its decode.
+//
+//	variant 0: framed wrapper around a connected UDP socket, clock far behind the wall clock
+//	variant 1: the same with the system clock
+//	variant 2: one end of a net.Pipe, clock far behind
+//	variant 3: one end of a net.Pipe, clock far ahead
+func targetedRealConnections(c *core.Ctx, variant int) {
+	c.Eval(1)
+	var (
+		conn   stun.Connection
+		serve  func() // reads one request, answers it
+		finish func()
+		answer = make(chan []byte, 8)
+	)
+	respond := func(req []byte) []byte {
+		if len(req) < 20 {
+			return nil
+		}
+		var id [12]byte
+		copy(id[:], req[8:20])
+		resp := response(id, fmt.Sprintf("real-%d-%x", variant, id[:2]))
+		answer <- resp
+
+		return resp
+	}
+	switch variant {
+	case 0, 1:
+		srv, err := net.ListenUDP("udp", &net.UDPAddr{IP: net.IPv4(127, 0, 0, 1)})
+		if err != nil {
+			c.Inconclusive(1)
+
+			return
+		}
+		cli, err := net.DialUDP("udp", nil, srv.LocalAddr().(*net.UDPAddr)) //nolint:forcetypeassert
+		if err != nil {
+			_ = srv.Close()
+			c.Inconclusive(1)
+
+			return
+		}
+		conn = framedUDP{cli}
+		serve = func() {
+			buf := make([]byte, 2048)
+			_ = srv.SetReadDeadline(time.Now().Add(3 * time.Second))
+			n, from, err := srv.ReadFromUDP(buf)
+			if err != nil || n < 4 {
+				return
+			}
+			if resp := respond(buf[4:n]); resp != nil {
+				_, _ = srv.WriteToUDP(append([]byte{0xF0, 0x0D, byte(len(resp) >> 8), byte(len(resp))}, resp...), from)
+			}
+		}
+		finish = func() { _ = srv.Close() }
+	default:
+		a, b := net.Pipe()
+		conn = a
+		serve = func() {
+			buf := make([]byte, 2048)
+			_ = b.SetReadDeadline(time.Now().Add(3 * time.Second))
+			n, err := b.Read(buf)
+			if err != nil {
+				return
+			}
+			if resp := respond(buf[:n]); resp != nil {
+				_ = b.SetWriteDeadline(time.Now().Add(3 * time.Second))
+				_, _ = b.Write(resp)
+			}
+		}
+		finish = func() { _ = b.Close() }
+	}
+	defer finish()
+	// no retransmissions, and a timeout (on the clock of variant 1, the system's) far beyond the wait below
+	opts := []stun.ClientOption{stun.WithNoRetransmit, stun.WithRTO(30 * time.Second)}
+	switch variant {
+	case 0, 2:
+		opts = append(opts, stun.WithClock(fixedClock{time.Unix(1000000000, 0)}))
+	case 3:
+		opts = append(opts, stun.WithClock(fixedClock{time.Unix(4000000000, 0)}))
+	}
+	cl, err := stun.NewClient(conn, opts...)
+	if err != nil {
+		c.Violate("newclient", "newclient", err.Error())
+
+		return
+	}
+	defer func() { _ = cl.Close() }()
+	delivered := 0
+	const attempts = 3 // a datagram may be lost, three in a row on the loopback interface are not
+	for k := 0; k < attempts && delivered == 0; k++ {
+		id := seqTID(int8(4 + k))
+		got := make(chan stun.Event, 4)
+		go serve()
+		if err := cl.Start(request(id, 28, byte(k)), func(e stun.Event) {
+			if e.Message != nil {
+				cp := new(stun.Message)
+				_ = e.Message.CloneTo(cp)
+				e.Message = cp
+			}
+			got <- e
+		}); err != nil {
+			c.Violate("start-failed", "start-failed", map[string]interface{}{"variant": variant, "problem": err.Error()})
+
+			return
+		}
+		select {
+		case e := <-got:
+			var want []byte
+			select {
+			case want = <-answer:
+			default:
+			}
+			if errors.Is(e.Error, stun.ErrTransactionTimeOut) {
+				continue // counted as not delivered
+			}
+			if e.Error != nil || e.Message == nil || e.TransactionID != id || !bytes.Equal(e.Message.Raw, want) {
+				c.Violate("misrouted", "real-connection:wrong-event", map[string]interface{}{"variant": variant, "attempt": k,
+					"problem": fmt.Sprintf("the handler got error=%v, a message of %d bytes; the peer answered with %d bytes through the connection's Read", e.Error, lenRaw(e.Message), len(want))})
+
+				return
+			}
+			delivered++
+		case <-time.After(4 * time.Second):
+			select {
+			case <-answer:
+			default:
+			}
+		}
+	}
+	if delivered == 0 {
+		c.Violate("lost-response", "real-connection:response-never-delivered", map[string]interface{}{"variant": variant,
+			"problem": fmt.Sprintf("%d requests in a row were answered by the peer (through the Connection the client was given) and none of the responses reached its transaction", attempts)})
+
+		return
+	}
+	c.Count("targeted.real_connections", 1)
+}
+
+func lenRaw(m *stun.Message) int {
+	if m == nil {
+		return -1
+	}
+
+	return len(m.Raw)
 }
 
 // targetedRestartWhileFirstWriteFails: Start(id) is parked right before its Write; the response arrives and is handled;
